@@ -110,182 +110,13 @@ func runC14(c *Ctx) {
 		}
 	}
 
-	um := w.fn("transform", "AliasMangler.Unmangle")
 	sr := w.fn("transform", "AliasMangler.ShouldRecurse")
 	mg := w.fn("transform", "AliasMangler.Mangle")
-	if !c.need(um != nil && sr != nil && mg != nil, "transform.AliasMangler methods") {
+	if !c.need(sr != nil && mg != nil, "transform.AliasMangler methods") {
 		return
 	}
-	c.analysed(relName(um))
 	c.analysed(relName(mg))
-	// ---- predicate calls in Unmangle -----------------------------------------
-	var pred *ssa.Function
-	var tests []*ssa.Call
-	direct := false
-	for _, i := range allInstrs(um) {
-		ci, ok := i.(*ssa.Call)
-		if !ok {
-			continue
-		}
-		if calleeFullName(ci) == "(reflect.Value).IsNil" || calleeFullName(ci) == "(reflect.Value).IsZero" {
-			direct = true
-			c.bad("nil-test-total", relName(um)+"#direct", ci.Pos(), "Unmangle tests %s directly: values reached through slice/array recursion are not pointerified", calleeFullName(ci))
-			continue
-		}
-		callee := staticCallee(ci)
-		if callee == nil || !w.inRepo(callee) || len(ci.Call.Args) != 1 || ci.Type().String() != "bool" {
-			continue
-		}
-		if pred == nil {
-			pred = callee
-		}
-		if callee != pred {
-			c.bad("nil-test-total", relName(um)+"#mixed", ci.Pos(), "Unmangle mixes two different 'is set' predicates (%s and %s): the both-set test and the selection can disagree", relName(pred), relName(callee))
-			direct = true
-		}
-		tests = append(tests, ci)
-	}
-	if pred == nil {
-		c.bad("nil-test-total", relName(um), um.Pos(), "no 'is set' predicate found in Unmangle")
-		return
-	}
-	if !direct {
-		c.ok("nil-test-total", relName(um)+"#one-predicate", um.Pos(), "all %d set-tests use %s", len(tests), relName(pred))
-	}
-	// the predicate is kind-total: IsNil only under nil-able kinds (through helpers)
-	okTotal := true
-	var visit func(f *ssa.Function, depth int)
-	visit = func(f *ssa.Function, depth int) {
-		c.analysed(relName(f))
-		pb := &predBuilder{}
-		for _, i := range allInstrs(f) {
-			ci, ok := i.(*ssa.Call)
-			if !ok {
-				continue
-			}
-			if calleeFullName(ci) == "(reflect.Value).IsNil" {
-				atom := "(reflect.Value).Kind(" + canon(ci.Call.Args[0]) + ")"
-				ks := kindsWhere(pb.pathCond(f.Blocks[0], ci.Block()), atom)
-				for kk := range ks {
-					switch kk {
-					case kPtr, kMap, kSlice, kInterface, kChan, kFunc, kUnsafePointer:
-					default:
-						okTotal = false
-					}
-				}
-				if len(ks) == len(allKinds) {
-					okTotal = false
-				}
-			}
-			if callee := staticCallee(ci); callee != nil && w.inRepo(callee) && depth < 2 {
-				visit(callee, depth+1)
-			}
-		}
-	}
-	visit(pred, 0)
-	c.check(okTotal, "nil-test-total", relName(pred)+"#kind-total", pred.Pos(), "the predicate only calls IsNil under nil-able kinds", "the 'is set' predicate can call reflect.Value.IsNil on a non-nilable kind (panic for fields inside slice elements)")
-
-	// ---- either-or --------------------------------------------------------------
-	// atoms: pred(fvs[0].Value), pred(fvs[1].Value)
-	elemIdx := func(ci *ssa.Call) (int64, bool) {
-		// arg: load of field Value of &fvs[const]
-		a := ci.Call.Args[0]
-		ld, ok := a.(*ssa.UnOp)
-		if !ok {
-			return 0, false
-		}
-		fa, ok := ld.X.(*ssa.FieldAddr)
-		if !ok || fieldName(fa.X.Type(), fa.Field) != "Value" {
-			return 0, false
-		}
-		ia, ok := fa.X.(*ssa.IndexAddr)
-		if !ok {
-			return 0, false
-		}
-		return constInt(ia.Index)
-	}
-	pb := &predBuilder{name: func(v ssa.Value) string {
-		if ci, ok := v.(*ssa.Call); ok && staticCallee(ci) == pred {
-			if n, ok := elemIdx(ci); ok {
-				return "unset" + string(rune('0'+n))
-			}
-		}
-		return ""
-	}}
-	nErr := 0
-	for _, r := range returnsOf(um) {
-		rv := retVals(r)
-		if isNilConst(rv[1]) {
-			continue
-		}
-		call, ok := stripConv(rv[1]).(*ssa.Call)
-		if !ok || calleeFullName(call) != "fmt.Errorf" {
-			continue
-		}
-		g := pb.pathCond(um.Blocks[0], r.Block())
-		fb, fi := map[string]bool{}, map[string]bool{}
-		atomsOf(g, fb, fi)
-		if !fb["unset0"] && !fb["unset1"] {
-			continue // the arity error
-		}
-		nErr++
-		// restrict to the len==2 region: treat the len atom as free
-		_, counter := forAll(g, nil, func(e env, fv bool) bool {
-			if fv {
-				return !e.B["unset0"] && !e.B["unset1"]
-			}
-			return true
-		})
-		names := false
-		for _, a := range call.Call.Args {
-			if els, ok := sliceElems(a, 0); ok {
-				for _, e := range els {
-					if _, ok := loadOfTypeField(stripConv(e.V), "reflect.StructField", "Name"); ok {
-						names = true
-					}
-					if fl, ok := stripConv(e.V).(*ssa.Field); ok && fieldName(fl.X.Type(), fl.Field) == "Name" {
-						names = true
-					}
-				}
-			}
-		}
-		if !fb["unset0"] || !fb["unset1"] {
-			counter = "the error does not depend on both copies being set"
-		}
-		c.check(counter == "" && names, "either-or", relName(um)+"#both-set-error", r.Pos(), "the error is returned only when both copies are set, and names the field", "the both-set error is reachable when a copy is unset ("+counter+") or does not name the field")
-	}
-	if nErr == 0 {
-		c.bad("either-or", relName(um)+"#both-set-error", um.Pos(), "Unmangle never reports 'both set'")
-	}
-	// the converse: when both are set, no value return is reachable
-	for _, r := range returnsOf(um) {
-		rv := retVals(r)
-		if !isNilConst(rv[1]) {
-			continue
-		}
-		g := pb.pathCond(um.Blocks[0], r.Block())
-		fb, fi := map[string]bool{}, map[string]bool{}
-		atomsOf(g, fb, fi)
-		if !fb["unset0"] && !fb["unset1"] {
-			continue // the single-copy return
-		}
-		_, counter := forAll(g, nil, func(e env, fv bool) bool { return !(fv && !e.B["unset0"] && !e.B["unset1"]) })
-		c.check(counter == "", "either-or", relName(um)+"#no-value-when-both", r.Pos(), "no value is returned when both copies are set", "a value is returned although both copies are set: "+counter)
-	}
-	// values returned from the scan were tested set
-	for _, r := range returnsOf(um) {
-		rv := retVals(r)
-		if !isNilConst(rv[1]) || !underLoop(r) {
-			continue
-		}
-		okT := false
-		for _, ec := range condsDominating(r.Block()) {
-			if ci, ok := ec.Cond.(*ssa.Call); ok && staticCallee(ci) == pred && !ec.Val && sameValue(ci.Call.Args[0], rv[0]) {
-				okT = true
-			}
-		}
-		c.check(okT, "either-or", relName(um)+"#scan-returns-set", r.Pos(), "the scan returns the copy it just tested set", "the scan returns a value other than the one it tested set")
-	}
+	c14AliasUnmangle(c)
 
 	// ---- alias-recurses -------------------------------------------------------------
 	okR := true
@@ -587,4 +418,184 @@ func c11Hop(c *Ctx, hf *ssa.Function, callee string, rule string) {
 		}
 	}
 	c.check(okP, rule, name, call.Pos(), "the error of "+callee+" is tested and returned (wrapped)", "the error of "+callee+" is not returned on its non-nil branch")
+}
+
+// c14AliasUnmangle: the either-or / nil-test-total rules on AliasMangler.Unmangle
+// (shared by C14 and C10).
+func c14AliasUnmangle(c *Ctx) {
+	w := c.W
+	um := w.fn("transform", "AliasMangler.Unmangle")
+	if !c.need(um != nil, "transform.AliasMangler.Unmangle") {
+		return
+	}
+	c.analysed(relName(um))
+	// ---- predicate calls in Unmangle -----------------------------------------
+	var pred *ssa.Function
+	var tests []*ssa.Call
+	direct := false
+	for _, i := range allInstrs(um) {
+		ci, ok := i.(*ssa.Call)
+		if !ok {
+			continue
+		}
+		if calleeFullName(ci) == "(reflect.Value).IsNil" || calleeFullName(ci) == "(reflect.Value).IsZero" {
+			direct = true
+			c.bad("nil-test-total", relName(um)+"#direct", ci.Pos(), "Unmangle tests %s directly: values reached through slice/array recursion are not pointerified", calleeFullName(ci))
+			continue
+		}
+		callee := staticCallee(ci)
+		if callee == nil || !w.inRepo(callee) || len(ci.Call.Args) != 1 || ci.Type().String() != "bool" {
+			continue
+		}
+		if pred == nil {
+			pred = callee
+		}
+		if callee != pred {
+			c.bad("nil-test-total", relName(um)+"#mixed", ci.Pos(), "Unmangle mixes two different 'is set' predicates (%s and %s): the both-set test and the selection can disagree", relName(pred), relName(callee))
+			direct = true
+		}
+		tests = append(tests, ci)
+	}
+	if pred == nil {
+		c.bad("nil-test-total", relName(um), um.Pos(), "no 'is set' predicate found in Unmangle")
+		return
+	}
+	if !direct {
+		c.ok("nil-test-total", relName(um)+"#one-predicate", um.Pos(), "all %d set-tests use %s", len(tests), relName(pred))
+	}
+	// the predicate is kind-total: IsNil only under nil-able kinds (through helpers)
+	okTotal := true
+	var visit func(f *ssa.Function, depth int)
+	visit = func(f *ssa.Function, depth int) {
+		c.analysed(relName(f))
+		pb := &predBuilder{}
+		for _, i := range allInstrs(f) {
+			ci, ok := i.(*ssa.Call)
+			if !ok {
+				continue
+			}
+			if calleeFullName(ci) == "(reflect.Value).IsNil" {
+				atom := "(reflect.Value).Kind(" + canon(ci.Call.Args[0]) + ")"
+				ks := kindsWhere(pb.pathCond(f.Blocks[0], ci.Block()), atom)
+				for kk := range ks {
+					switch kk {
+					case kPtr, kMap, kSlice, kInterface, kChan, kFunc, kUnsafePointer:
+					default:
+						okTotal = false
+					}
+				}
+				if len(ks) == len(allKinds) {
+					okTotal = false
+				}
+			}
+			if callee := staticCallee(ci); callee != nil && w.inRepo(callee) && depth < 2 {
+				visit(callee, depth+1)
+			}
+		}
+	}
+	visit(pred, 0)
+	c.check(okTotal, "nil-test-total", relName(pred)+"#kind-total", pred.Pos(), "the predicate only calls IsNil under nil-able kinds", "the 'is set' predicate can call reflect.Value.IsNil on a non-nilable kind (panic for fields inside slice elements)")
+
+	// ---- either-or --------------------------------------------------------------
+	// atoms: pred(fvs[0].Value), pred(fvs[1].Value)
+	elemIdx := func(ci *ssa.Call) (int64, bool) {
+		// arg: load of field Value of &fvs[const]
+		a := ci.Call.Args[0]
+		ld, ok := a.(*ssa.UnOp)
+		if !ok {
+			return 0, false
+		}
+		fa, ok := ld.X.(*ssa.FieldAddr)
+		if !ok || fieldName(fa.X.Type(), fa.Field) != "Value" {
+			return 0, false
+		}
+		ia, ok := fa.X.(*ssa.IndexAddr)
+		if !ok {
+			return 0, false
+		}
+		return constInt(ia.Index)
+	}
+	pb := &predBuilder{name: func(v ssa.Value) string {
+		if ci, ok := v.(*ssa.Call); ok && staticCallee(ci) == pred {
+			if n, ok := elemIdx(ci); ok {
+				return "unset" + string(rune('0'+n))
+			}
+		}
+		return ""
+	}}
+	nErr := 0
+	for _, r := range returnsOf(um) {
+		rv := retVals(r)
+		if isNilConst(rv[1]) {
+			continue
+		}
+		call, ok := stripConv(rv[1]).(*ssa.Call)
+		if !ok || calleeFullName(call) != "fmt.Errorf" {
+			continue
+		}
+		g := pb.pathCond(um.Blocks[0], r.Block())
+		fb, fi := map[string]bool{}, map[string]bool{}
+		atomsOf(g, fb, fi)
+		if !fb["unset0"] && !fb["unset1"] {
+			continue // the arity error
+		}
+		nErr++
+		// restrict to the len==2 region: treat the len atom as free
+		_, counter := forAll(g, nil, func(e env, fv bool) bool {
+			if fv {
+				return !e.B["unset0"] && !e.B["unset1"]
+			}
+			return true
+		})
+		names := false
+		for _, a := range call.Call.Args {
+			if els, ok := sliceElems(a, 0); ok {
+				for _, e := range els {
+					if _, ok := loadOfTypeField(stripConv(e.V), "reflect.StructField", "Name"); ok {
+						names = true
+					}
+					if fl, ok := stripConv(e.V).(*ssa.Field); ok && fieldName(fl.X.Type(), fl.Field) == "Name" {
+						names = true
+					}
+				}
+			}
+		}
+		if !fb["unset0"] || !fb["unset1"] {
+			counter = "the error does not depend on both copies being set"
+		}
+		c.check(counter == "" && names, "either-or", relName(um)+"#both-set-error", r.Pos(), "the error is returned only when both copies are set, and names the field", "the both-set error is reachable when a copy is unset ("+counter+") or does not name the field")
+	}
+	if nErr == 0 {
+		c.bad("either-or", relName(um)+"#both-set-error", um.Pos(), "Unmangle never reports 'both set'")
+	}
+	// the converse: when both are set, no value return is reachable
+	for _, r := range returnsOf(um) {
+		rv := retVals(r)
+		if !isNilConst(rv[1]) {
+			continue
+		}
+		g := pb.pathCond(um.Blocks[0], r.Block())
+		fb, fi := map[string]bool{}, map[string]bool{}
+		atomsOf(g, fb, fi)
+		if !fb["unset0"] && !fb["unset1"] {
+			continue // the single-copy return
+		}
+		_, counter := forAll(g, nil, func(e env, fv bool) bool { return !(fv && !e.B["unset0"] && !e.B["unset1"]) })
+		c.check(counter == "", "either-or", relName(um)+"#no-value-when-both", r.Pos(), "no value is returned when both copies are set", "a value is returned although both copies are set: "+counter)
+	}
+	// values returned from the scan were tested set
+	for _, r := range returnsOf(um) {
+		rv := retVals(r)
+		if !isNilConst(rv[1]) || !underLoop(r) {
+			continue
+		}
+		okT := false
+		for _, ec := range condsDominating(r.Block()) {
+			if ci, ok := ec.Cond.(*ssa.Call); ok && staticCallee(ci) == pred && !ec.Val && sameValue(ci.Call.Args[0], rv[0]) {
+				okT = true
+			}
+		}
+		c.check(okT, "either-or", relName(um)+"#scan-returns-set", r.Pos(), "the scan returns the copy it just tested set", "the scan returns a value other than the one it tested set")
+	}
+
 }
